@@ -45,3 +45,18 @@ def run(chk, repo):
     chk.rule("C16-V5", "the volume directory is parsed with volume_directory_record, converted by to_dict and transformed by transform_record", 4)
     to_dict_contract(chk, repo, "C16-V5")
     parse_and_transform(chk, repo, "C16-V5", "ceos_alos2.volume_directory.io", "volume_directory_record", "transform_record", "open_volume_directory")
+    chk.attempt(opener_contents, chk, repo)
+
+
+def opener_contents(chk, repo):
+    """C16-V7: open_volume_directory evaluated on text-field contents of every kind (labelled ids, free text, full width, blank, a single
+    character) under a standard product file name and under another name"""
+    from .common_rules import opener_eval
+    cases = [("as JAXA writes them", {"scene_id": "ORBIT:ALOS2014410750-140829", "product_id": "PRODUCT:WWDR1.5RUA", "location": "OKINAWA"}),
+             ("free text", {"scene_id": "ALOS2 014410750 140829", "product_id": "L1.5 GEO-REFERENCE", "location": "x y"}),
+             ("full width", {"scene_id": "x" * 40, "product_id": "9" * 40, "location": "z" * 40}),
+             ("blank", {"scene_id": "", "product_id": "", "location": ""}),
+             ("a single character", {"scene_id": "A", "product_id": "-", "location": "."}),
+             ("ids of another scene", {"scene_id": "ORBIT:ALOS2099990000-200101", "product_id": "PRODUCT:UBSR2.1GUD", "location": ""})]
+    opener_eval(chk, repo, "C16-V7", "ceos_alos2.volume_directory.io", "transform_record", "open_volume_directory", cases,
+                ["VOL-ALOS2014410750-140829-WWDR1.5RUA", "volume-directory.bin", "sub/VOL-ALOS2014410750-140829-WWDR1.5RUA"])
